@@ -83,6 +83,7 @@ type round struct {
 	failed bool
 	ncalls int
 	npar   int
+	nreg   int
 }
 
 func (w *round) emit(k int, e ev) {
@@ -353,7 +354,7 @@ func main() {
 		}
 		return false
 	}
-	nevents, ncalls, nparallel := 0, 0, 0
+	nevents, ncalls, nparallel, nregs := 0, 0, 0, 0
 	shapes := map[string]int{}
 	if *entry > 0 {
 		for r := 0; r < *entry; r++ {
@@ -497,6 +498,41 @@ func main() {
 				w.npar++
 				okAll := true
 				var okMu sync.Mutex
+				// registrations (ProcessClient) of other clients, and re-registrations of the syncing ones, arrive in the
+				// same moments: each must return without an error and leaves the datatypes alone (the trace says so)
+				nreg := rng.Intn(3)
+				regStarts := make([]time.Duration, nreg)
+				regWho := make([]int, nreg)
+				for j := range regStarts {
+					regStarts[j] = time.Duration(rng.Intn(3000)) * time.Microsecond
+					regWho[j] = rng.Intn(w.n + 1) // 0: a new client
+				}
+				for j := 0; j < nreg; j++ {
+					j := j
+					wg.Add(1)
+					go func() {
+						defer wg.Done()
+						time.Sleep(regStarts[j])
+						cl := w.cls[regWho[j]]
+						if cl == nil {
+							cl = stack.NewClient("col", fmt.Sprintf("x%d_%d_%d", w.r, w.npar, j))
+							cl.Open("counter", fmt.Sprintf("unused%d_%d_%d", w.r, w.npar, j), "dueCreate")
+						}
+						done := make(chan error, 1)
+						go func() { done <- w.st.Register(cl) }()
+						select {
+						case err := <-done:
+							if err != nil {
+								w.fail("error", "a client registration (ProcessClient) in the middle of parallel syncs failed: "+err.Error())
+							}
+						case <-time.After(deadline):
+							w.fail("hang", fmt.Sprintf("a client registration (ProcessClient) in the middle of parallel syncs did not return within %v", deadline))
+						}
+						w.mu.Lock()
+						w.nreg++
+						w.mu.Unlock()
+					}()
+				}
 				for c := 1; c <= w.n; c++ {
 					c := c
 					wg.Add(1)
@@ -537,6 +573,7 @@ func main() {
 		}
 		ncalls += w.ncalls
 		nparallel += w.npar
+		nregs += w.nreg
 		st.Close()
 	}
 	f.Close()
@@ -546,7 +583,7 @@ func main() {
 	if *entry > 0 {
 		*rounds = *entry
 	}
-	sum := map[string]interface{}{"rounds": *rounds, "events": nevents, "calls": ncalls, "parallel_exchanges": nparallel, "shapes": shapes, "nviol": len(viol), "violations": viol}
+	sum := map[string]interface{}{"rounds": *rounds, "events": nevents, "calls": ncalls, "parallel_exchanges": nparallel, "registrations_in_parallel": nregs, "shapes": shapes, "nviol": len(viol), "violations": viol}
 	b, _ := json.Marshal(sum)
 	fmt.Println(string(b))
 	if len(viol) > 0 {
